@@ -1,6 +1,8 @@
 package main
 
 import (
+	"fmt"
+
 	"golang.org/x/tools/go/ssa"
 )
 
@@ -187,9 +189,14 @@ func (e *Engine) mergeStates(prefix int, sts []*State) *State {
 	return m
 }
 
+func (e *Engine) mfail(why string) *State {
+	e.Stats["mergefail:"+why]++
+	return nil
+}
+
 func (e *Engine) merge2(c *Term, a, b *State) *State {
 	if len(a.Frames) != len(b.Frames) || a.Status != b.Status || len(a.Obs) != len(b.Obs) {
-		return nil
+		return e.mfail("shape")
 	}
 	n := &State{Status: a.Status, Steps: maxInt(a.Steps, b.Steps), Unwind: a.Unwind, Forks: maxInt(a.Forks, b.Forks), Budget: a.Budget}
 	// frames
@@ -202,7 +209,7 @@ func (e *Engine) merge2(c *Term, a, b *State) *State {
 			continue
 		}
 		if fa.Fn != fb.Fn || fa.Block != fb.Block || fa.PC != fb.PC || fa.Call != fb.Call || len(fa.Defers) != len(fb.Defers) || fa.Drop != fb.Drop {
-			return nil
+			return e.mfail("frame")
 		}
 		for k := range fa.Defers {
 			if !sameValue(fa.Defers[k].Fn, fb.Defers[k].Fn) || !sameValue(TupleV(fa.Defers[k].Args), TupleV(fb.Defers[k].Args)) {
@@ -220,7 +227,12 @@ func (e *Engine) merge2(c *Term, a, b *State) *State {
 			}
 			mv, ok := mergeValue(c, va, vb)
 			if !ok {
-				return nil
+				// a value whose defining block does not dominate the frame's current block is
+				// dead here (SSA dominance): stale from an earlier loop iteration or branch
+				if in, isIn := k.(ssa.Instruction); isIn && in.Block() != nil && !in.Block().Dominates(fa.Block) {
+					continue
+				}
+				return e.mfail(fmt.Sprintf("local %T/%T %s", va, vb, k.Name()))
 			}
 			nf.Locals[k] = mv
 		}
@@ -258,7 +270,7 @@ func (e *Engine) merge2(c *Term, a, b *State) *State {
 		}
 		mv, ok := mergeValue(c, va, vb)
 		if !ok {
-			return nil
+			return e.mfail(fmt.Sprintf("heap %T/%T", va, vb))
 		}
 		n.Heap[id] = mv
 	}
